@@ -101,7 +101,10 @@ func (w *worker) work(controller inputer, jobProvider *jobProvider, readBufferSi
 			if isNotFileBeingWritten(file.Name()) {
 				// lz4 does not support appending, so we check that no one is writing to the file
 				logger.Error("cannot process incomplete file. write in progress", zap.String("filename", file.Name()))
-				break
+				// try again later: the job is done for now and is resumed by the next write notification or maintenance
+				// (a bare break here would leave the jobs loop: the worker would be gone for good and the job never read)
+				jobProvider.doneJob(job)
+				continue
 			}
 			lz4Reader := lz4.NewReader(file)
 			if len(offsets) > 0 {
@@ -250,8 +253,17 @@ func isNotFileBeingWritten(filePath string) bool {
 	// Check the output for write access
 	lines := strings.Split(string(output), "\n")
 	for _, line := range lines {
-		// Check if the line contains 'w' indicating write access
-		if strings.Contains(line, "w") {
+		// COMMAND PID USER FD TYPE ...: FD is the descriptor number followed by the access mode,
+		// 'w' (write) or 'u' (read and write) indicate write access; "cwd", "txt", "mem" etc. are not descriptors
+		fields := strings.Fields(line)
+		if len(fields) < 4 {
+			continue
+		}
+		fd := fields[3]
+		if fd[0] < '0' || fd[0] > '9' {
+			continue
+		}
+		if mode := fd[len(fd)-1]; mode == 'w' || mode == 'u' {
 			return true // File is being written to
 		}
 	}
